@@ -165,7 +165,7 @@ def confirm_and_report(res, prop, replay_bin, text, msg, crash, env=None):
         with open(tmp, 'w') as f:
             f.write(text)
         rc, o = run_replay(replay_bin, tmp, prop, env)
-        tail = [l.strip() for l in o.splitlines() if 'ERROR' in l or 'SUMMARY' in l or 'Assertion' in l or 'FAIL' in l or 'terminate' in l]
+        tail = [l.strip() for l in o.splitlines() if 'ERROR' in l or 'SUMMARY' in l or 'Assertion' in l or 'FAIL' in l or 'terminate' in l or 'CPU-BUDGET' in l]
         msg = ('crash (exit %s): ' % rc + ' | '.join(tail[:3]))[:1000]
     path = save_replay(prop, text, msg)
     res.violations.append((path, msg))
@@ -352,7 +352,7 @@ def finish(prop, tier, level, res, cov, t0, floor=2, assumptions=None):
     return 0
 
 def generic_pbt(prop, tier, n_quick, n_thorough, size_quick=100, size_thorough=100, level='exploration', floor=20, flavour='asan',
-                assumptions=None, shards_quick=16, shards_thorough=16, prop_arg=None, extra_cov=None, extra_env=None, extra_cases=None):
+                assumptions=None, shards_quick=16, shards_thorough=16, prop_arg=None, extra_cov=None, extra_env=None, extra_cases=None, fuzz=None):
     t0 = time.time()
     res = Result()
     try:
@@ -390,6 +390,10 @@ def generic_pbt(prop, tier, n_quick, n_thorough, size_quick=100, size_thorough=1
         extra_cov['residues_missing'] = sorted(set(range(512)) - set(int(k[4:]) for k in res_tags))
         for k in res_tags:
             del m['tags'][k]
+    fuzz_cov = {}
+    if fuzz:
+        for spec in fuzz:
+            run_fuzz(prop, spec['target'], spec.get('seeds', []), spec['budget'][1 if tier == 'thorough' else 0], spec['jobs'][1 if tier == 'thorough' else 0], tier, spec.get('max_len', 4096), res, fuzz_cov)
     cov = {
         'evaluations': m['evaluations'], 'distinct_nontrivial': len(m['nt']), 'rule': m['nt_rule'],
         'samples': m['samples'][:4], 'case_classes': m['tags'], 'discards': m['discards'], 'counters': m['counters'],
@@ -397,7 +401,83 @@ def generic_pbt(prop, tier, n_quick, n_thorough, size_quick=100, size_thorough=1
     }
     if extra_cov:
         cov.update(extra_cov)
+    cov.update(fuzz_cov)
+    if fuzz_cov:
+        cov['evaluations'] += sum(v['executions'] for v in fuzz_cov.values())
     return finish(prop, tier, level, res, cov, t0, floor=floor, assumptions=assumptions)
+
+def run_fuzz(prop, target, seeds, budget_s, jobs, tier, max_len, res, cov, props_of_fail=None):
+    """Coverage-guided campaign (libFuzzer, clang -fsanitize=fuzzer,address) with the semantic oracle inside the target.
+    seeds: list of case texts whose file (f* ops) is dumped as a seed input. Violations: oracle failures (fail-*.case written by the
+    target) and crash-* artifacts; timeout/oom/slow-unit artifacts are ignored (budget hit = inconclusive for the fuzz part)."""
+    import re
+    try:
+        fz = B.build('fuzz', (target,))
+        rp = B.build('asan', ('replay',), quiet=True)
+    except RuntimeError as e:
+        res.cov.setdefault('inconclusive', []).append('fuzz build failed: ' + str(e)[-300:])
+        return
+    root = os.path.join(WORK, 'fuzz-%s-%d' % (target, os.getpid()))
+    shutil.rmtree(root, ignore_errors=True)
+    os.makedirs(os.path.join(root, 'seeds'))
+    for i, text in enumerate(seeds):
+        cp = os.path.join(root, 'seed%d.case' % i)
+        with open(cp, 'w') as f:
+            f.write(text)
+        subprocess.run([rp['replay'], '--dump', cp, os.path.join(root, 'seeds', 'seed%d.bin' % i)], stdout=subprocess.DEVNULL, stderr=subprocess.DEVNULL, env=base_env())
+    if not os.listdir(os.path.join(root, 'seeds')):
+        with open(os.path.join(root, 'seeds', 'empty'), 'wb') as f:
+            f.write(b'\0' * 64)
+    procs = []
+    for j in range(jobs):
+        cdir = os.path.join(root, 'corpus%d' % j); odir = os.path.join(root, 'out%d' % j)
+        shutil.copytree(os.path.join(root, 'seeds'), cdir); os.makedirs(odir)
+        env = base_env({'VERIF_FUZZ_OUT': odir, 'VERIF_TIER': tier, 'VERIF_OPEN_FINDINGS': ' '.join(k['id'] for k in open_findings())})
+        env['ASAN_OPTIONS'] = ASAN_OPTS.replace('exitcode=99', 'exitcode=77').replace('hard_rss_limit_mb=6144', 'hard_rss_limit_mb=3072')
+        cmd = [fz[target], '-max_len=%d' % max_len, '-seed=%d' % (seed() * 100 + j + 1), '-max_total_time=%d' % budget_s, '-timeout=20', '-rss_limit_mb=3000',
+               '-artifact_prefix=' + odir + '/', '-print_final_stats=1', cdir]
+        procs.append((subprocess.Popen(cmd, stdout=subprocess.PIPE, stderr=subprocess.STDOUT, text=True, errors='replace', env=env), odir))
+    execs = 0; fails = []
+    for p, odir in procs:
+        try:
+            out, _ = p.communicate(timeout=budget_s + 120)
+        except subprocess.TimeoutExpired:
+            p.kill(); out, _ = p.communicate()
+        m = re.search(r'stat::number_of_executed_units:\s*(\d+)', out)
+        if m:
+            execs += int(m.group(1))
+        else:
+            ms = re.findall(r'#(\d+)\s', out)
+            if ms:
+                execs += int(ms[-1])
+        for fcase in glob.glob(os.path.join(odir, 'fail-*.case')):
+            with open(fcase) as f:
+                fails.append((f.read(), 'oracle failure in fuzz target', False))
+        crashes = glob.glob(os.path.join(odir, 'crash-*'))
+        if crashes and not glob.glob(os.path.join(odir, 'fail-*.case')):
+            cur = glob.glob(os.path.join(odir, 'current-*.case'))
+            if cur:
+                with open(cur[0]) as f:
+                    fails.append((f.read(), 'sanitizer crash in fuzz target: ' + ' '.join(l for l in out.splitlines() if 'ERROR' in l or 'SUMMARY' in l)[:300], True))
+            else:
+                with open(crashes[0], 'rb') as f:
+                    raw = f.read()
+                text = 'property: %s\nbytes %s\nload\n' % (prop, ' '.join(str(b) for b in raw))
+                fails.append((text, 'sanitizer crash in fuzz target: ' + ' '.join(l for l in out.splitlines() if 'ERROR' in l or 'SUMMARY' in l)[:300], True))
+    opens = ' '.join(k['id'] for k in open_findings())
+    seen = set()
+    for text, msg, crash in fails:
+        if text in seen:
+            continue
+        seen.add(text)
+        pr = prop
+        for l in text.splitlines():
+            if l.startswith('property:'):
+                pr = l.split(':', 1)[1].strip() or prop
+        confirm_and_report(res, prop, rp['replay'], text.replace('property: ' + pr, 'property: ' + pr), msg, crash, {'VERIF_OPEN_FINDINGS': opens, 'VERIF_TIER': tier})
+    shutil.rmtree(root, ignore_errors=True)
+    cov['fuzz_' + target] = {'executions': execs, 'jobs': jobs, 'budget_s_per_job': budget_s, 'engine': 'libFuzzer -seed=VERIF_SEED*100+job, fresh corpus from %d seed file(s); only oracle failures and crash artifacts count' % len(seeds)}
+    return execs
 
 def cmd_replay(prop, path):
     flavour = 'asan'
